@@ -297,6 +297,19 @@ UNITS = [
       props={'memsafe': ['C13', 'C16'], 'ub': ['C13']},
       assumes=['plain symbolic execution of the real c3d::readParam (string form), _readMatrix, _dispatchMatrix, removeTrailingSpaces; '
                'readString = value stub (proved contract)']),
+    U('B_updateParameters', 'contracts/bounded_update_parameters.c', 'h_B_updateParameters', [], ['C05', 'C10', 'C13'], mode='bmc',
+      stubs={'Parameters__groupIdx': 'stubq_groupIdx', 'Parameters__group_nonConst__sz': 'stubq_group_at', 'Parameters__group__str': 'stubq_group_named',
+             'Group__parameterIdx': 'stubq_parameterIdx', 'Group__parameter__str': 'stubq_param_named',
+             'Group__parameter_nonConst__str': 'stubq_param_named_nc', 'Group__parameter__sz': 'stubq_param_at',
+             'Group__parameter_nonConst__sz': 'stubq_param_at_nc', 'Parameter__set__sz': 'stubq_set_sz',
+             'Parameter__set__vstr_vsz': 'stubq_set_vstr', 'Parameter__set__vint_vsz': 'stubq_set_vint',
+             'Parameter__set__vfloat_vsz': 'stubq_set_vfloat', 'c3d__updateHeader': 'stubq_updateHeader'},
+      unwind=9, unwindset={'vf_string_ctor_lit.0': 14}, timeout=5400, level='B', object_bits=13, tier='thorough',
+      bound='at most 1 stored frame, 2 points, 1 sub-frame of 2 channels, 2 existing labels, 1 pending name of each kind, names of at most 1 character',
+      props={'memsafe': ['C13'], 'ub': ['C13']},
+      assumes=['plain symbolic execution of the real updateParameters; by-name / by-index accessors = ghost directory (VALID_C3D); the '
+               'Parameter::set overloads and updateHeader are recording stubs (their own units); pre-state satisfies C05 for the '
+               'ANALOG lists and channels are never removed']),
     U('Parameters_write', WR, 'h_Parameters_write', ['Parameters__write/contract_Parameters__write'],
       ['C01', 'C03', 'C13', 'C14', 'C10'], replace=['Group__write/contract_abs_Group__write'], unwind=5, loops=True, timeout=900,
       pre_unwind={'vf_stream_write.0': 5, 'Parameters__write.0': 3},
